@@ -24,9 +24,9 @@ def run(tier, prop="C15", clauses=CLAUSES, extra=None, limit=None, depth=None):
         res = list(ex.map(coord.explore_cfg, [(c, depth, base.seed()) for c in cs]))
         sres = list(ex.map(coord.simulate_cfg, [(c, 150 if quick else 1500, 30, base.seed() + i) for i, c in enumerate(cs)]))
     closed = True
+    from . import conform
+    conform.settle_audit(res)
     for x in res:
-        if x["audit"]:
-            raise base.MachineryError("dedup audit failed: %s" % x["audit"])
         R.cov["traces_validated_against_impl"] += x["edges"]
         R.cov["evaluations"] += x["edges"]
         R.cov["distinct_nontrivial"] += x["nontrivial"]
